@@ -370,6 +370,24 @@ func (f *FuncVC) solveFast(o *Obligation, dir string, timeout time.Duration) {
 	if o.expectSat {
 		t = time.Second
 	}
+	if proofCache.hint[o.Name] == "split" && f.splitTerm != "" && !o.expectSat && o.Kind != "split.cover" {
+		// scheduling hint: this obligation was discharged per case of the contract's `split` when the cache was built
+		return
+	}
+	if hs := proofCache.hint[o.Name]; hs != "" && hs != solvers[0].Name && !o.expectSat {
+		// scheduling hint: when the cache was built this obligation (by name) was decided by another solver; the query
+		// text has changed (cache miss), try that solver first
+		for _, s := range solvers {
+			if s.Name == hs {
+				a, _, sec := runSolver(s, file, 3*t)
+				if a == "unsat" {
+					o.Status, o.Backend, o.Seconds, o.Output = "discharged", s.Name, sec, s.Name+":unsat (scheduled first by hint)"
+					os.Remove(file)
+					return
+				}
+			}
+		}
+	}
 	a, _, sec := runSolver(solvers[0], file, t)
 	o.Seconds = sec
 	o.Backend = solvers[0].Name
@@ -570,7 +588,7 @@ func (g *Gen) verifyFunction(key string, c *Contract, smtDir string, quickMs int
 	// obligations of functions that left the subset or have stale clauses are undecided, not failed
 	for _, o := range f.obls {
 		if o.Status == "discharged" && !o.expectSat && !o.Cached && o.hash != "" {
-			proofCache.put(o.hash, o.Backend, o.Seconds)
+			proofCache.put(o.hash, o.Backend, o.Seconds, o.Name)
 		}
 	}
 	for _, o := range f.obls {
@@ -594,12 +612,13 @@ func (g *Gen) verifyFunction(key string, c *Contract, smtDir string, quickMs int
 type cacheEntry struct{ solver, seconds string }
 
 type cacheT struct {
-	mu sync.Mutex
-	m  map[string]cacheEntry
-	nw []string
+	mu   sync.Mutex
+	m    map[string]cacheEntry
+	nw   []string
+	hint map[string]string // obligation name -> solver that decided it when the cache was built (a scheduling hint only)
 }
 
-var proofCache = &cacheT{m: map[string]cacheEntry{}}
+var proofCache = &cacheT{m: map[string]cacheEntry{}, hint: map[string]string{}}
 
 func queryHash(q string) string {
 	// obligation names/positions in comments are not part of the logical content
@@ -625,6 +644,11 @@ func (c *cacheT) load(path string) {
 		if len(f) >= 3 {
 			c.m[f[0]] = cacheEntry{f[1], f[2]}
 		}
+		if len(f) >= 5 {
+			c.hint[f[3]] = f[4]
+		} else if len(f) >= 4 {
+			c.hint[f[3]] = f[1]
+		}
 	}
 }
 
@@ -635,7 +659,7 @@ func (c *cacheT) get(h string) (cacheEntry, bool) {
 	return e, ok
 }
 
-func (c *cacheT) put(h, solver string, sec float64) {
+func (c *cacheT) put(h, solver string, sec float64, oname ...string) {
 	c.mu.Lock()
 	defer c.mu.Unlock()
 	if _, ok := c.m[h]; ok {
@@ -646,8 +670,16 @@ func (c *cacheT) put(h, solver string, sec float64) {
 	if len(s) > 0 {
 		name = s[0]
 	}
+	hname := name
+	if strings.Contains(solver, "case split") {
+		hname = "split"
+	}
 	c.m[h] = cacheEntry{name, fmt.Sprintf("%.2f", sec)}
-	c.nw = append(c.nw, fmt.Sprintf("%s %s %.2f", h, name, sec))
+	line := fmt.Sprintf("%s %s %.2f", h, name, sec)
+	if len(oname) > 0 && !strings.ContainsAny(oname[0], " \t") {
+		line += " " + oname[0] + " " + hname
+	}
+	c.nw = append(c.nw, line)
 }
 
 func (c *cacheT) flush(path string) {
